@@ -138,7 +138,7 @@ pub fn run(ctx: &mut Ctx) {
         codes.extend_from_slice(&[10, 0, 19, 99, 251, 255, 256, 65535]);
         let mut qtypes: Vec<u16> = TYPED_CODES.to_vec();
         qtypes.extend_from_slice(&[10, 255, 253]);
-        let reps = if ctx.slow_tool { 1 } else { ctx.tier.pick(4u64, 40u64) };
+        let reps = if ctx.slow_tool { 1 } else { ctx.tier.pick(30u64, 600u64) };
         for (ci, code) in codes.iter().enumerate() {
             for rep in 0..reps {
                 let idx = ci as u64 * 1000 + rep;
